@@ -63,5 +63,59 @@ def mirjaliliProb (demandP : Nat → α) (cat : Nat → List α) (order : Nat) (
 def mirjaliliRow {β : Type} (c : MirjaliliCfg β) (demandP : Nat → α) (cat : Nat → List α) (order : Nat) : List α :=
   (mirjaliliEvents c).map fun ev => mirjaliliProb demandP cat order (ev.headD 0).toNat ((ev.drop 1).map Int.toNat)
 
+/-! ### Hendrix two-product: joint law of the units issued -/
+
+/-- `scipy.stats.binom.pmf(k, n, ρ)` = C(n,k) ρ^k (1−ρ)^(n−k) -/
+def binomPmf (ρ : α) (n k : Nat) : α := (choose n k : α) * ρ ^ k * (1 - ρ) ^ (n - k)
+
+/-- the primitive tables of the Hendrix problem: Poisson pmfs of both demands, the upper tail `1 − cdf_A(x − 1)` exactly as the code
+    computes it, the substitution probability and the three size limits -/
+structure HendrixTab (α : Type) where
+  D : Nat              -- max_demand = max_useful_life · (max(Qa, Qb) + 2)
+  maxA : Nat           -- max_stock_a
+  maxB : Nat           -- max_stock_b
+  pa : Nat → α
+  pb : Nat → α
+  tailA : Nat → α      -- `1 - poisson.cdf(stock_a - 1, mean_a)`
+  rho : α
+
+/-- `_calculate_pu`: pu[u, y] = Σ_{x = u}^{D−y−1} pb(x + y) · binom.pmf(u, x, ρ) for u < D − y, else 0 -/
+def hendrixPu (t : HendrixTab α) (u y : Nat) : α :=
+  if u < t.D - y then lsum ((List.range (t.D - y - u)).map fun j => t.pb (u + j + y) * binomPmf t.rho (u + j) u) else 0
+
+/-- `_calculate_pz`: pz[z, y] = Σ_{k ≤ z} pa(k) · pu[z − k, y] -/
+def hendrixPz (t : HendrixTab α) (z y : Nat) : α :=
+  lsum ((List.range (z + 1)).map fun k => t.pa k * hendrixPu t (z - k) y)
+
+/-- the four masked arrays of `random_event_probability`, cell (ia, ib), for stock totals (x, y) -/
+def hendrixP1 (t : HendrixTab α) (x y ia ib : Nat) : α :=
+  (if ia < x then t.pa ia else 0) * (if ib < y then t.pb ib else 0)
+def hendrixP2 (t : HendrixTab α) (x y ia ib : Nat) : α :=
+  if ia = x then t.tailA x * (if ib < y then t.pb ib else 0) else 0
+def hendrixP3 (t : HendrixTab α) (x y ia ib : Nat) : α :=
+  if ib = y then (if ia < x then hendrixPz t ia y else 0) else 0
+def hendrixP4 (t : HendrixTab α) (x y ia ib : Nat) : α :=
+  if ia = x ∧ ib = y then lsum ((List.range (t.D + 1)).map fun z => if x ≤ z then hendrixPz t z y else 0) else 0
+
+def hendrixCell (t : HendrixTab α) (x y ia ib : Nat) : α :=
+  hendrixP1 t x y ia ib + hendrixP2 t x y ia ib + hendrixP3 t x y ia ib + hendrixP4 t x y ia ib
+
+/-- `(probs_1 + probs_2 + probs_3 + probs_4).reshape(-1)`: the row of event probabilities in the order of the event space
+    (issued_a major, issued_b minor) -/
+def hendrixRow (t : HendrixTab α) (x y : Nat) : List α :=
+  (List.range (t.maxA + 1)).flatMap fun ia => (List.range (t.maxB + 1)).map fun ib => hendrixCell t x y ia ib
+
+/-- **specification**: the documented joint law, enumerated over demands and substitution, inside the implementation's truncation
+    region (d_B < D, d_A + u ≤ D): demand for B below stock is met in full and A sells min(stock, demand); otherwise B sells out,
+    each unit of unmet demand asks for A with probability ρ, and A sells min(stock, own demand + substitution demand) -/
+def hendrixSpecCell (t : HendrixTab α) (x y ia ib : Nat) : α :=
+  (if ib < y then t.pb ib * (if ia < x then t.pa ia else if ia = x then t.tailA x else 0) else 0) +
+  (if ib = y then
+    lsum ((List.range (t.D - y)).map fun e =>               -- e = d_B − y, unmet demand for B
+      lsum ((List.range (e + 1)).map fun u =>               -- u = substitution demand
+        lsum ((List.range (t.D - u + 1)).map fun dA =>
+          if min (dA + u) x = ia then t.pa dA * t.pb (e + y) * binomPmf t.rho e u else 0)))
+   else 0)
+
 end
 end MdpaxV
